@@ -135,6 +135,9 @@ func c06Check(c c06Case, st *stats.Run) error {
 	for i, pc := range pieces {
 		opened := 0
 		for ctr := 0; ctr <= len(pieces); ctr++ {
+			if len(pieces) > 16 && !(ctr == i || ctr == i+1 || ctr == i-1 || ctr == i+256 || ctr == i-256 || ctr == i^0x100 || ctr == i&0xff || ctr == 0 || ctr == len(pieces)-1) {
+				continue // large files: probe the counters a faulty increment would produce
+			}
 			for _, fin := range []bool{false, true} {
 				if _, err := refage.OpenChunk(key, uint64(ctr), fin, pc); err == nil {
 					opened++
@@ -391,11 +394,87 @@ func c06CheckFault(c c06FaultCase, st *stats.Run) error {
 	return nil
 }
 
+// --- a failing CSPRNG must fail the encryption, never yield a default secret ---
+
+type c06RandFault struct {
+	Recs  []hx.RecSpec `json:"recs"`
+	Read  int          `json:"read"`  // which draw fails
+	Short int          `json:"short"` // bytes delivered before the failure
+}
+
+func c06CheckRandFault(c c06RandFault, st *stats.Run) error {
+	p := hx.ThePool()
+	kinds := c06ReadKinds(c.Recs)
+	k := c.Read % len(kinds)
+	tape := hx.NewFailingTape(31, k, c.Short)
+	var file []byte
+	var err error
+	hx.WithTape(tape, func() { file, err = encryptLib(c06BuildRecs(p, c.Recs, false), []byte("plaintext"), nil, false) })
+	st.Case(true, stats.HashJSON(c), "randfault:"+kindClass(kinds[k]), "randfault:mix="+hx.KindsOf(c.Recs))
+	st.Sample("rand-fault", c)
+	if err == nil {
+		return pbt.Failf("C06/rand-failure-ignored", "crypto/rand failed on draw %d (%s, after %d bytes) while encrypting to %v, yet Encrypt/Write/Close all succeeded: some secret was not drawn from the CSPRNG (%d-byte file produced)", k, kinds[k], c.Short, c.Recs, len(file))
+	}
+	return nil
+}
+
+// --- no chunk is ever sealed after the final one, whatever the caller does ---
+
+type c06Misuse struct {
+	PlainLen int `json:"plainLen"`
+	Extra    int `json:"extra"` // bytes written after Close
+}
+
+func c06CheckMisuse(c c06Misuse, st *stats.Run) error {
+	p := hx.ThePool()
+	plain := hx.PRG(4, c.PlainLen)
+	tape := &hx.Tape{Seed: 41}
+	var out hx.RecWriter
+	var lateErr, close2 error
+	hx.WithTape(tape, func() {
+		w, err := age.Encrypt(&out, p.Recipient(hx.RecSpec{Kind: "x25519", Idx: 0}))
+		if err != nil {
+			return
+		}
+		w.Write(plain)
+		w.Close()
+		_, lateErr = w.Write(hx.PRG(5, c.Extra))
+		close2 = w.Close()
+	})
+	st.Case(c.Extra > chunk, stats.HashJSON(c), "misuse:write-after-close")
+	st.Sample("write-after-close", c)
+	h, rest, perr := refage.ParseHeader(out.Buf.Bytes())
+	if perr != nil || len(rest) < 16 || len(tape.Reads) < 3 {
+		return pbt.Failf("C06/unparseable", "output does not parse: %v", perr)
+	}
+	_ = h
+	key := refage.StreamKey(tape.Reads[0].Data, rest[:16])
+	pieces := splitSealed(rest[16:])
+	for i, pc := range pieces {
+		pt, err := refage.OpenChunk(key, uint64(i), i == len(pieces)-1, pc)
+		if err != nil {
+			return pbt.Failf("C06/chunk-after-final", "after Write(%d bytes), Close, Write(%d bytes) [err=%v], Close [err=%v] the destination holds %d chunks and chunk %d is not sealed under (counter %d, final=%v): chunks were sealed after the final chunk", c.PlainLen, c.Extra, lateErr, close2, len(pieces), i, i, i == len(pieces)-1)
+		}
+		_ = pt
+	}
+	got, err := refage.OpenPayload(key, rest[16:])
+	if err != nil || !bytes.Equal(got, plain) {
+		return pbt.Failf("C06/chunk-after-final", "after a Write following Close the destination no longer holds the file for the plaintext written before Close (%v)", err)
+	}
+	return nil
+}
+
 func TestC06(t *testing.T) {
 	s := pbt.Start(t, "C06")
 	defer s.Finish()
 	check := func(c c06Case) error { return c06Check(c, s.St) }
 	pbt.Regress(s, "tape-accounting", check)
+	pbt.Each(s, "tape-accounting", func(yield func(c06Case)) {
+		if s.Shard == 0 {
+			yield(c06Case{TapeSeed: 5, PlainLen: 257*chunk + 1000, Recs: []hx.RecSpec{{Kind: "x25519", Idx: 0}}, Perturb: 0})
+			s.St.Exhaust("chunk nonces of a 258-chunk payload", 1)
+		}
+	}, check)
 	pbt.Rapid(s, "tape-accounting", s.N(1500, 10000), func(t *rapid.T) c06Case {
 		l := genPlainLen(t, 3)
 		recs := c05GenRecs(t)
@@ -425,6 +504,37 @@ func TestC06(t *testing.T) {
 
 	// the CLI's autogenerated passphrase words (cmd/age/wordlist.go), in-package
 	overlayCheck(s, "C06", "cli-random-word", "TestVerifOverlayC06", s.N(20000, 50000))
+
+	randFault := func(c c06RandFault) error { return c06CheckRandFault(c, s.St) }
+	pbt.Regress(s, "rand-fault", randFault)
+	pbt.Each(s, "rand-fault", func(yield func(c06RandFault)) {
+		n := 0
+		mixes := [][]hx.RecSpec{
+			{{Kind: "x25519", Idx: 0}}, {{Kind: "x25519", Idx: 0}, {Kind: "x25519", Idx: 1}, {Kind: "x25519", Idx: 0}},
+			{{Kind: "ed25519", Idx: 0}, {Kind: "rsa", Idx: 0}, {Kind: "x25519", Idx: 2}}, {{Kind: "scrypt", Pass: "pw", WF: 1}},
+			{{Kind: "rsa", Idx: 1}}, {{Kind: "ed25519", Idx: 1}},
+		}
+		for _, m := range mixes {
+			for k := range c06ReadKinds(m) {
+				for _, short := range []int{0, 4, 15} {
+					yield(c06RandFault{Recs: m, Read: k, Short: short})
+					n++
+				}
+			}
+		}
+		s.St.Exhaust("every CSPRNG draw of 6 recipient mixes failing after 0, 4 or 15 bytes", int64(n))
+	}, randFault)
+	misuse := func(c c06Misuse) error { return c06CheckMisuse(c, s.St) }
+	pbt.Each(s, "write-after-close", func(yield func(c06Misuse)) {
+		n := 0
+		for _, l := range []int{0, 10, chunk, chunk + 1} {
+			for _, e := range []int{0, 1, chunk, chunk + 1, 2*chunk + 5} {
+				yield(c06Misuse{PlainLen: l, Extra: e})
+				n++
+			}
+		}
+		s.St.Exhaust("Write after Close: 4 plaintext lengths x 5 late write sizes", int64(n))
+	}, misuse)
 
 	fault := func(c c06FaultCase) error { return c06CheckFault(c, s.St) }
 	pbt.Regress(s, "faulty-destination", fault)
